@@ -318,7 +318,7 @@ Definition c06_check (br : bytes) (ident : option (bytes * bytes * Z)) (must : b
            (in_rr : list bytes) (o : bytes * bytes) : nat :=
   match j_read (snd o) with
   | Some om =>
-      match opt_all (map j_via (j_flat is_via (jm_headers om))) with
+      match opt_all (map j_via (j_flat_via (jm_headers om))) with
       | Some ovs =>
           let out_rr := j_flat is_rr (jm_headers om) in
           match ident with
@@ -358,7 +358,7 @@ Lemma judge_C06_udp_unfold pc st li src sport data outs closed :
   match j_read data, nth_opt (c_listens (pc_cfg pc)) li with
   | Some m, Some lc =>
       if (negb (j_is_response m) && jm_has_cl m && (negb false || single_message m))%bool then
-        match j_request m, opt_all (map j_via (j_flat is_via (jm_headers m))) with
+        match j_request m, opt_all (map j_via (j_flat_via (jm_headers m))) with
         | Some q, Some ivs =>
             if match j_choose (pc_cfg pc) lc false q with HOut => true | _ => false end then O else
             first_nonzero
@@ -377,7 +377,7 @@ Proof. reflexivity. Qed.
 Lemma j_flat_sel (p : bytes -> bool) nm hs : (forall n, same_header n nm = p n) ->
   j_flat p (map (fun h => jpair (hpair h)) hs) = B13.tview (sel nm hs).
 Proof.
-  intros E. unfold j_flat, B13.tview, sel. induction hs as [|h r IH]; [reflexivity|].
+  intros E. unfold j_flat, j_entries, B13.tview, sel. induction hs as [|h r IH]; [reflexivity|].
   cbn [map flat_map filter]. change (fst (jpair (hpair h))) with (h_name h). rewrite <- E.
   destruct (same_header (h_name h) nm); cbn [flat_map]; rewrite IH; reflexivity.
 Qed.
@@ -401,7 +401,7 @@ Qed.
 Lemma c06_read mo : B7.good mo -> start_ok (start_line_print (m_start mo)) ->
   (Z.of_nat (List.length (m_body mo)) <= int_max)%Z ->
   exists om, j_read (write_message mo) = Some om /\
-    opt_all (map j_via (j_flat is_via (jm_headers om))) = Some (map B7.jv_of (C07.flat_view (C07.via_hdrs mo))) /\
+    opt_all (map j_via (j_flat_via (jm_headers om))) = Some (map B7.jv_of (C07.flat_view (C07.via_hdrs mo))) /\
     j_flat is_rr (jm_headers om) = B13.tview (sel RRn (m_headers mo)).
 Proof.
   intros G S B. eexists.
@@ -455,11 +455,7 @@ Proof.
       apply B7.rclean_tail_clean; [discriminate|reflexivity]. }
   rewrite trim_space_go_sp by reflexivity. rewrite T.
   change X with (join_byte ","%char [X]) at 1. rewrite split_join; [|discriminate|constructor; [exact NC|constructor]].
-  cbn [map]. f_equal. apply B7.trim_space_ends.
-  - unfold X, own_rr_text. reflexivity.
-  - replace X with ((s2b "<sip:" ++ t_addr t ++ ":"%char :: itoa (t_port t) ++ s2b ";lr") ++ [">"%char])
-      by (unfold X, own_rr_text; repeat (rewrite <- app_assoc; cbn [app]); reflexivity).
-    rewrite rev_app_distr. reflexivity.
+  cbn [map]. rewrite T. reflexivity.
 Qed.
 
 Lemma hT_nonnil h : B13.hT h <> [].
@@ -566,7 +562,7 @@ Lemma j_learn_agree c stj li lc src sport data jin m x :
   agree_learned c (js_learned stj) (x_learned x) ->
   nth_opt (c_listens c) li = Some lc ->
   j_is_response jin = false -> is_request m = true -> amem src (ps_backends (x_p x)) = false ->
-  opt_all (map j_via (j_flat is_via (jm_headers jin))) = Some (map B7.jv_of (C07.flat_view (C07.via_hdrs m))) ->
+  opt_all (map j_via (j_flat_via (jm_headers jin))) = Some (map B7.jv_of (C07.flat_view (C07.via_hdrs m))) ->
   agree_learned c (j_learn stj (jin_udp li src sport data) jin) (learned_after src (B13.udp_transport lc) m x).
 Proof.
   intros A N Rj Rm NB EV. unfold j_learn, learned_after, jin_udp. rewrite Rj, Rm, NB.
@@ -1094,7 +1090,7 @@ Proof.
   assert (Hq : is_request m = true).
   { unfold is_request. rewrite (B7.parse_start_line_kind _ _ PS). unfold j_is_response in Rj. rewrite Rj. reflexivity. }
   assert (G0 : B7.good m) by (apply B7.good_of_parse; assumption).
-  assert (EV : opt_all (map j_via (j_flat is_via (jm_headers jin))) =
+  assert (EV : opt_all (map j_via (j_flat_via (jm_headers jin))) =
                Some (map B7.jv_of (C07.flat_view (C07.via_hdrs m)))).
   { rewrite EH. apply B7.via_read. eapply Forall_impl; [|exact G0]. intros h Gh _. exact Gh. }
   apply ident_agree_of.
@@ -1171,7 +1167,7 @@ Proof.
   - rewrite Hq. cbn [negb andb]. unfold j_learn. rewrite Rj. exact AG.
   - cbn [negb] in Hq.
     assert (G0 : B7.good m) by (apply B7.good_of_parse; assumption).
-    assert (EV : opt_all (map j_via (j_flat is_via (jm_headers jin))) =
+    assert (EV : opt_all (map j_via (j_flat_via (jm_headers jin))) =
                  Some (map B7.jv_of (C07.flat_view (C07.via_hdrs m)))).
     { rewrite EH. apply B7.via_read. eapply Forall_impl; [|exact G0]. intros h Gh _. exact Gh. }
     pose proof (j_learn_agree (pc_cfg pc) stj li lc src sport data jin m
@@ -1209,7 +1205,7 @@ Example ex_read : j_read B13.b13_req = Some ex_jin.
 Proof. vm_compute. reflexivity. Qed.
 
 Example ex_out_via :
-  map (fun o => option_map (fun om => map (fun e => option_map jv_host (j_via e)) (j_flat is_via (jm_headers om)))
+  map (fun o => option_map (fun om => map (fun e => option_map jv_host (j_via e)) (j_flat_via (jm_headers om)))
                            (j_read (snd o))) B13.b13_outs
   = [Some [Some (s2b "10.0.0.1"); Some (s2b "10.0.0.9")]].
 Proof. vm_compute. reflexivity. Qed.
